@@ -10,10 +10,10 @@ CHECKS = {
          "Every size/comparison verdict of the real library is compared with an independent big-rational interval oracle: all non-zero int8/uint8 values x all bounds in a window enumerated completely, plus boundary-directed values (bound-1, bound, bound+1, multi-byte strings, slices, floats adjacent to the bound) for every other kind, through Var, Struct, Map and Url. Held = no disagreement on the executions listed in the evidence.",
          "Trusts math/big and the harness's clause parser; NaN/Inf floats and bounds outside int range are out of scope; executions only, not a proof.", "§3 C01"),
  "C10": ("Go race detector + linearizability checking of recorded histories (porcupine) + quiescent conservation monitor",
-         "One LRUCache is driven by 2-16 goroutines in a -race binary. (1) every race-detector report with a library frame is a violation; (2) thousands of small histories recorded at the client boundary with logical call/return stamps are checked for linearizability against the sequential LRU model with porcupine (no per-key partitioning, eviction couples keys); (3) large runs are checked at quiescence for Len<=capacity, Len==#hitting keys, Dump/Len agreement and exactly-once callback conservation. Evidence reports distinct interleavings and the op-pair overlap matrix actually observed.",
+         "One LRUCache is driven by 2-16 goroutines in a -race binary. (1) every race-detector report with a library frame is a violation; (2) thousands of small histories recorded at the client boundary with logical call/return stamps are checked for linearizability against the sequential LRU model with porcupine (no per-key partitioning, eviction couples keys); (3) large runs are checked at quiescence for Len<=capacity, Len==#hitting keys, Dump/Len agreement and exactly-once callback conservation. Evidence reports distinct interleavings and the op-pair overlap matrix actually observed. A sequential probe, independent of Dump's format, requires that its text names every live entry (by key or value) and no removed value.",
          "Only executed interleavings are judged; the race detector sees only executed access pairs; porcupine v1.3.0 and the 30-line model are trusted; deadlock is decided by classifying the goroutine dump of a watchdog-killed child, never by a clock.", "§3 C10"),
  "C14": ("generator-as-oracle round-trip monitor + algebraic no-loss law on arbitrary strings",
-         "Rule lists rendered with GenValidKV and RM.Set are read back through RM.Get, ValidNamesSplit and ParseValidNameKV and compared with the triples the generator rendered (count, order, key, value, labelled message); the splitter's no-loss law and fast-path/slow-path agreement are checked on millions of arbitrary strings.",
+         "Rule lists rendered with GenValidKV and RM.Set are read back through RM.Get, ValidNamesSplit and ParseValidNameKV and compared with the triples the generator rendered (count, order, key, value, labelled message); the splitter's no-loss law and fast-path/slow-path agreement are checked on millions of arbitrary strings. The builder is also called twice with an argument slice the caller keeps (args...): same text both times, slice unchanged.",
          "Rule text is restricted as documented (commas only inside quotes, balanced quotes, no | in values, no leading =, non-empty messages).", "§3 C14"),
  "C15": ("clause-level monitor of custom messages + extractor checked against the parsed clauses of real library errors",
          "For every message-capable rule, failing and passing values, ten message shapes and five carriers the clause must show label+message verbatim; GetOnlyExplainErr is run on real library errors in every order pattern of Chinese-labelled, English-labelled, unknown-rule and rule-writing clauses (all patterns up to length 4, random up to 8, with trailing group clauses) and compared with the explanation parts of the parsed clauses.",
@@ -25,13 +25,13 @@ CHECKS = {
          "Generated Go files of seven shape classes, plus real-world sources found on the machine (protoc-gen-go output in the module cache, standard-library files) annotated by the harness or left as they are, are processed by the library entry points and by the freshly built CLI (-f, -d, -p); for every annotated field the output's ordered key/value list must equal the independently computed merge (existing keys in place, overridden values, new keys appended, no duplicates), every byte outside the annotated fields' tag literals must be unchanged and the output must parse.",
          "go/parser is trusted; domain limited as the property states (backquoted conventional tags, trailing comments of the field — several are merged in order —, top-level declarations; grouped declarations may be processed or not; a value containing a backquote cannot be injected and must leave the field untouched).", "§3 C06"),
  "C07": ("byte-equality monitor over repeated injector runs (histories mixing library, -f, -d, -p)",
-         "The C06 corpus (generated classes and real-world sources) plus annotation-free files, comments repeating a key and the parseable-but-awkward shapes of C19 is processed 2-5 times with randomly mixed entry points; the bytes after run n+1 must equal those after run n, and annotation-free files must never change. The check is vacuous-proofed by requiring that >=90% of annotated files were actually modified by run 1.",
+         "The C06 corpus (generated classes and real-world sources) plus annotation-free files, comments repeating a key and the parseable-but-awkward shapes of C19 is processed 2-5 times with randomly mixed entry points; the bytes after run n+1 must equal those after run n, and annotation-free files must never change. The check is vacuous-proofed by requiring that >=90% of annotated files were actually modified by run 1. The corpus includes files larger than a mebibyte, literals that repeat a key, annotated fields without a literal and keys with a hyphen or a dot.",
          "Idempotence is judged independently of correctness; SHA/bytes comparison only.", "§3 C07"),
  "C19": ("fault-injected directory workloads against the built CLI (content faults, permission faults at open as an unprivileged process, degenerate invocations); snapshot comparison + C06 oracle per processable file",
          "Directories mixing processable files with syntactically broken, truncated, empty and binary .go files, parseable-but-awkward files (no tag literal, malformed @tag, grouped/local/generic types, interpreted/empty literals), non-Go files, sub-directories and a directory named x.go are processed with -f/-d/-p/-p '*'; exit status and panic text are observed, unprocessable files must be byte-identical and every parseable file must equal the documented merge (so a crash or early stop that leaves later files un-injected is detected). I/O faults are injected at the open system call: the CLI runs as an unprivileged user over directories holding unreadable (mode 0000) and read-only (0444) files among processable ones — the unreadable file must stay byte-identical, the read-only one byte-identical or correctly injected, every other file must be processed, no crash; and degenerate invocations (missing directory, a file given as directory, malformed or unmatched glob patterns, missing file, empty arguments, no arguments) must neither crash nor touch a bystander. The thorough tier adds a coverage-guided fuzz target feeding arbitrary bytes named *.go to the injector.",
          "I/O faults are permission faults at open (a failing write in the middle of a file is outside the statement: the tool rewrites in place); files in sub-directories are only required not to be corrupted.", "§3 C19"),
  "C09": ("online reference-model monitor, bounded-exhaustive operation sequences + long random sequences",
-         "The real LRUCache is stepped in lock-step with a 30-line reference LRU; return value, Len, removal-callback log and full recency order (Dump) are compared after every single operation. All sequences up to the length bound over a 10-letter alphabet on capacities 0..4 are enumerated completely; long random sequences cross the map-rebuild threshold thousands of times; values of every dynamic kind (nil interface, typed nil, uncomparable) go through Delete / eviction / overwrite; and a fault is injected at the hook: a removal callback that panics on every k-th invocation while the caller recovers, after which the cache must still follow the model.",
+         "The real LRUCache is stepped in lock-step with a 30-line reference LRU; return value, Len, removal-callback log and full recency order (Dump) are compared after every single operation. All sequences up to the length bound over a 10-letter alphabet on capacities 0..4 are enumerated completely; long random sequences cross the map-rebuild threshold thousands of times; values of every dynamic kind (nil interface, typed nil, uncomparable) go through Delete / eviction / overwrite; and a fault is injected at the hook: a removal callback that panics on every k-th invocation while the caller recovers, after which the cache must still follow the model. The callback is a setting: a callback installed earlier never fires again and the recorder, re-installed every few operations, fires once per removal.",
          "Trusts the reference model's reading of the statement (Store on a live key replaces and touches, no callback on replacement); sequences longer than the bound are sampled, not enumerated.", "§3 C09"),
  "C02": ("reference-model monitor: independent validator + clause parser, sequence comparison of (path, rule-instance marker, echo) on run-time synthesised struct types",
          "Random struct types built with reflect.StructOf (nesting through values, pointers, slices, arrays, maps; unexported fields) carry 0-5 rules per field with unique custom messages, repeated rules, empty items, unknown names and either/botheq groups; values are tuned so each rule fails about half the time. The parsed clause sequence of Struct / ValidateStruct / StructForFn / top-level slice, array and map inputs / Var / Map / Url must equal the independent reference validator's: same clauses, none missing, none duplicated, declaration-then-rule order (Go map entries and group clauses as multisets), echo of scalars, no trailing separator, nil iff no clause.",
@@ -40,13 +40,13 @@ CHECKS = {
          "Every combination of 33 field types, their emptiness states (zero, nil, empty non-nil, populated), every rule applicable to the kind written as R / required,R / R,required / required, and eight entry points (struct tag, struct RM, a struct field between time.Time / string / integer neighbours, Var, map[string]T, map[string]interface{}, []map, Url incl. absent / empty / duplicated keys) is executed; required must be reported iff the value is empty and no other rule may produce a clause on an empty value.",
          "map[string]interface{} carriers have two open known findings (KNOWN_FINDINGS.txt).", "§3 C03"),
  "C05": ("reference-model monitor: hand-written three-valued recognisers (no regexp, no time.Parse) vs the library on members, all single-character edits of members and random strings",
-         "For each format/content rule the library's verdict through Var (1/8 also through Struct) is compared with an independent recogniser on valid members from a per-rule constructor, every single-character delete / insert / substitute / transpose of a member, random strings over a hostile alphabet, every datetime separator triple from a 7-symbol set, quoted options and patterns, numeric and slice inputs. Where the documentation does not fix membership the recogniser answers 'unspecified' and the case is counted, not judged.",
+         "For each format/content rule the library's verdict through Var (1/8 also through Struct) is compared with an independent recogniser on valid members from a per-rule constructor, every single-character delete / insert / substitute / transpose of a member, random strings over a hostile alphabet, every datetime separator triple from a 7-symbol set, quoted options and patterns, numeric and slice inputs. Where the documentation does not fix membership the recogniser answers 'unspecified' and the case is counted, not judged. Date and time texts are also judged with the process's local time zone set to six daylight-saving zones, on every wall-clock time those zones skip in 2012-2026.",
          "Trusts the recognisers' reading of the README; the regexp engine is trusted for re (only pattern extraction is under test); file/dir are judged against a tree the harness created.", "§3 C05"),
  "C13": ("crash monitor: recover() around every call + child-process exit status and journal, over a directed catalogue, grammar-aware rule mutation, random bytes and (thorough) coverage-guided native fuzzing",
          "Every public entry point is called with a complete catalogue of nil / typed-nil / nested-nil / wrong-kind inputs, with every rule key under 80 argument mutations (missing, foreign, unbalanced quotes and brackets, 0-6 separators, invalid regex, overflowing bounds, 70 KB, NUL, invalid UTF-8) on values of every kind, and with random bytes as rule text on random run-time synthesised object graphs; the thorough tier adds four coverage-guided native fuzz targets. Any panic or process-fatal error is a violation, signed by entry point + innermost library function + normalised message.",
          "Excludes cyclic graphs, panicking user callbacks and reuse of a consumed validator, as the property does; only executed inputs are judged.", "§3 C13"),
  "C08": ("relational monitor across child processes: one call history replayed under 17 cache configurations / call orders, per-call comparison with an always-miss (history-free) baseline",
-         "The same seeded history of ValidateStruct / StructForFn / Struct calls (types with independent rule sets under three tag names; A-then-B, A-B-A, override-then-plain patterns; sweeps over 620 one-off types that overflow a 512-entry cache) is executed in child processes that differ only in the cache installed through SetStructTypeCache (default, instrumented LRU of capacity 512/0/1/2/3/8, bare NewLRU(1/2/8), sync.Map, always-miss, amnesiac) or in call order (reversed, doubled). Every call must return the same clause list in every child. Instrumented caches report hits, misses, evictions and re-analyses actually observed.",
+         "The same seeded history of ValidateStruct / StructForFn / Struct calls (types with independent rule sets under three tag names; A-then-B, A-B-A, override-then-plain patterns; sweeps over 620 one-off types that overflow a 512-entry cache) is executed in child processes that differ only in the cache installed through SetStructTypeCache (default, instrumented LRU of capacity 512/0/1/2/3/8, bare NewLRU(1/2/8), sync.Map, always-miss, amnesiac) or in call order (reversed, doubled). Every call must return the same clause list in every child. Instrumented caches report hits, misses, evictions and re-analyses actually observed. The histories also ask for the empty tag name and let the struct dumper (another reader of the type cache) meet a type before the validator does.",
          "Clauses compared as sorted lists; no Go maps inside values; the reference validator is only used to say which side is wrong in a witness.", "§3 C08"),
  "C04": ("reference-model monitor: independent recursive descent vs the library on random acyclic object graphs with decoy sub-objects",
          "Random object graphs of a recursive family of named types (depth 0-5, every container form, nil / zero / populated nodes, nil elements) and of run-time synthesised struct types (nesting depth <= 4) are validated through value, pointer, pointer-to-pointer, slice, array and map top-level inputs. The (path, rule instance) pairs of the returned error must equal the reference validator's descent (descend iff required-and-non-empty or exist-and-non-zero; Parent.Field, [i], [key] naming). Independently of the reference, no clause may ever name one of the decoy sub-objects placed on unmarked, unexported and time.Time fields.",
@@ -55,16 +55,16 @@ CHECKS = {
          "Object graphs of three named types that share field names (the outermost type also occurs nested) are validated with every layout of supplied rule sets (unscoped, scoped to inner / outer / several types, empty scoped set) through all seven public routes; rule names resolve to per-call, global (some replacing built-ins) and built-in functions in every collision class and to unknown names. Every rule source and every function registration writes a distinct marker, so the returned (path, marker) sequence shows which source judged each field; it must equal the reference model's selection (supplied replaces tag per field, scoped set applies to its type everywhere, unscoped to the outermost struct only, per-call > global > built-in, unknown name = one clause and the other rules still run).",
          "Combinations the documentation does not order (non-empty scoped-outer set together with an unscoped set; unscoped set with top-level slice/map input) are not generated.", "§3 C16"),
  "C17": ("reference-model monitor: per-object group evaluation vs the library, with different value patterns in different elements",
-         "Struct types with 1-3 either/botheq groups (members of several kinds, singleton groups, messages on the group rule) are validated alone, as elements of slices, arrays and maps, nested under exist/required fields and as top-level collections, with different emptiness / equality patterns in different elements so that merging groups across objects changes the verdict; the same groups through Map, []map and Url. Group clauses (kind, member list) and singleton rule-writing clauses must equal the reference's per-object all-empty / all-equal evaluation.",
+         "Struct types with 1-3 either/botheq groups (members of several kinds, singleton groups, messages on the group rule) are validated alone, as elements of slices, arrays and maps, nested under exist/required fields and as top-level collections, with different emptiness / equality patterns in different elements so that merging groups across objects changes the verdict; the same groups through Map, []map and Url. Group clauses (kind, member list) and singleton rule-writing clauses must equal the reference's per-object all-empty / all-equal evaluation. Members include struct and array kinds, interface members holding one payload under different dynamic types, and map inputs whose key type is a defined string type.",
          "Member keys are always present for map/URL inputs; member order inside a clause is unspecified for Go maps.", "§3 C17"),
  "C18": ("relational monitor: marker sets of one (value, rule list) compared across ten carriers",
-         "One scalar value under 1-4 rules supported by all inputs (unique message per rule instance) is presented as struct field (tag and RM), Var, map[string]T, map[string]interface{}, []map and, for strings, Url in raw, percent-encoded (among decoys, first/middle/last) and whole-URL-encoded form, with values containing & = + % ? # space and CJK. The set of reported rule instances must be identical for every carrier; any carrier-specific extra clause is a violation too.",
+         "One scalar value under 1-4 rules supported by all inputs (unique message per rule instance) is presented as struct field (tag and RM), Var, map[string]T, map[string]interface{}, []map and, for strings, Url in raw, percent-encoded (among decoys, first/middle/last) and whole-URL-encoded form, with values containing & = + % ? # space and CJK. The set of reported rule instances must be identical for every carrier; any carrier-specific extra clause is a violation too. One rule list in nine shares one message among its rules; marker lists are compared with their multiplicities.",
          "No model decides the verdict (the reference validator only names the odd one out); map[string]interface{} carriers have an open known finding.", "§3 C18"),
  "C11": ("Go race detector + solo-vs-concurrent result comparison under goroutine stampedes with yield injection through the public cache interface",
          "A -race binary releases 2-32 goroutines together on a cold type cache; each executes hundreds to thousands of heterogeneous calls (every public entry point, three tag names, overrides, per-call functions, groups, one-off types) on independent inputs of shared and private struct types, under the default cache and under NewLRU(2) wrapped by a cache that yields between a Load miss and the following Store. In addition 8 (thorough: 40) cold-start processes make their very first library calls from 8-32 goroutines at once (lazily created package state is set up under contention). Every call is then executed again alone and the two results must be equal; every race-detector report with a library frame, panic, fatal error or hang in the library's lock is a violation. Evidence reports calls in flight, double misses, cross-goroutine pool hand-overs and overlapping entry-point pairs actually observed.",
          "Only executed interleavings are judged; schedule-dependent minimums are met by repeating the run (by count, never by clock); results compared as sorted clause lists.", "§3 C11"),
  "C12": ("relational history monitor (orders, permutations, adversarial predecessors, fresh-process samples) + twin-input mutation check + retained-string monitor under checkptr",
-         "A seeded history of heterogeneous calls is executed in order, reversed, in seeded permutations and with an adversarial predecessor (other tag, other override, per-call functions of the same names, entry-guard refusals) before every call; per call all results must be equal, and equal to the call executed as the first call of a fresh process for a sample. Inputs are compared with twins built from the same seed after the calls (input and rule maps unmodified). Every returned error text, split token and parsed triple is retained next to a byte copy and re-compared after later calls and garbage collections.",
+         "A seeded history of heterogeneous calls is executed in order, reversed, in seeded permutations and with an adversarial predecessor (other tag, other override, per-call functions of the same names, entry-guard refusals) before every call; per call all results must be equal, and equal to the call executed as the first call of a fresh process for a sample. Inputs are compared with twins built from the same seed after the calls (input and rule maps unmodified). Every returned error text, split token and parsed triple is retained next to a byte copy and re-compared after later calls and garbage collections. The same Url call (several absent required keys, keys differing in letter case, groups) is repeated 60 times and must return the same text every time.",
          "Functions inside Name2FnMap are compared by key only; -race implies checkptr for the unsafe string conversions; sampled fresh-process comparison.", "§3 C12"),
 }
 
